@@ -31,7 +31,7 @@ func init() {
 		rule: "PRNG scenarios over (inbox size, number of senders, messages per sender, backlog geometry formed behind a gate, baton chains, actor-to-actor sends); every message carries a unique id; a case is non-trivial if the backlog made the ring grow or a batch split at 4096, or >=2 senders interleaved; " +
 			"distinct by (mode, inbox size, senders, backlog class, growths, batches seen by the recording Processer / max backlog)",
 		assumptions: []string{
-			"messages to a stopping or crashing actor are excluded here (C05/C07)",
+			"messages to a stopping actor are excluded here (C07); a third of the engine scenarios interleave messages the actor crashes on: everything else is still owed to the restarted actor exactly once and in order",
 			"'any number of senders' is sampled up to 16, inbox sizes up to 1024, backlogs up to 10000",
 			"the final marker is sent after all sender goroutines have been joined, so its receipt proves (by the property itself) that everything sent before has been received; a marker that never arrives is inconclusive here (C03 decides lost wake-ups)",
 		},
@@ -286,6 +286,9 @@ func (p *plainRecv) Receive(c *actor.Context) {
 		if m.Final {
 			close(m.done)
 		}
+	case crashMsg:
+		// a message this actor crashes on: what is queued behind it is still owed to the (restarted) actor, in order
+		panic("scripted crash in a C01 receiver")
 	case goMsg:
 		// actor-to-actor: successive sends from one actor
 		for i := 0; i < m.N; i++ {
@@ -311,7 +314,8 @@ func c01Engine(c *caseCtx) (res caseResult) {
 	}
 	trickle := 1 + r.Intn(20)
 	rc := &plainRecv{gateIn: make(chan struct{}), gateOut: make(chan struct{})}
-	pid := e.Spawn(func() actor.Receiver { return rc }, "c01", actor.WithID("t"), actor.WithInboxSize(size))
+	crashy := r.Intn(3) == 0
+	pid := e.Spawn(func() actor.Receiver { return rc }, "c01", actor.WithID("t"), actor.WithInboxSize(size), actor.WithMaxRestarts(1000000), actor.WithRestartDelay(0))
 	fw := &plainRecv{}
 	fwPID := e.Spawn(func() actor.Receiver { return fw }, "c01", actor.WithID("fw"), actor.WithInboxSize(pick(r, 1, 8)))
 	senderPIDs := []*actor.PID{nil, actor.NewPID("local", "s/1"), nil, actor.NewPID("local", "s/2")}
@@ -341,6 +345,9 @@ func c01Engine(c *caseCtx) (res caseResult) {
 				sp := senderPIDs[(s+i)%len(senderPIDs)]
 				sent[s] = append(sent[s], sentRec{m, sp})
 				e.SendWithSender(pid, m, sp)
+				if crashy && s == 0 && i%11 == 5 {
+					e.Send(pid, crashMsg{ID: i})
+				}
 			}
 		}()
 	}
@@ -376,6 +383,9 @@ func c01Engine(c *caseCtx) (res caseResult) {
 					continue
 				}
 				e.SendWithSender(pid, m, sp)
+				if crashy && s == 0 && i%7 == 3 {
+					e.Send(pid, crashMsg{ID: i})
+				}
 			}
 		}()
 	}
@@ -395,7 +405,7 @@ func c01Engine(c *caseCtx) (res caseResult) {
 	}
 	fin := &tmsg{Sender: -1, Final: true, done: make(chan struct{})}
 	e.Send(pid, fin)
-	res.Desc = fmt.Sprintf("engine size=%d senders=%d backlog=%d(class %d) trickle=%d actor-to-actor=%d", size, nS, backlog, backlogClass, trickle, fwN)
+	res.Desc = fmt.Sprintf("engine size=%d senders=%d backlog=%d(class %d) trickle=%d actor-to-actor=%d crashes-in-between=%v", size, nS, backlog, backlogClass, trickle, fwN, crashy)
 	select {
 	case <-fin.done:
 	case <-time.After(wd / 3):
@@ -439,7 +449,7 @@ func c01Engine(c *caseCtx) (res caseResult) {
 	res.count("backlog_ge_4096", b2i(backlog >= 4096))
 	res.count("ring_grew", b2i(backlog >= size))
 	if backlog >= size || nS >= 2 {
-		res.Sig = sigHash("engine", size, nS, backlogClass, fwN > 0)
+		res.Sig = sigHash("engine", size, nS, backlogClass, fwN > 0, crashy)
 	}
 	if c.n < 2 || res.Verdict == vViolated {
 		res.Sample = map[string]any{"scenario": res.Desc, "received": len(got)}
